@@ -104,6 +104,10 @@ class Ctx:
         uniq = {}
         for fd in self.findings:
             uniq.setdefault(fd.ident(), fd)
+        fp = getattr(self, 'findings_path', None)
+        if fp:
+            with open(fp, 'w') as fh:
+                json.dump(sorted(list(k) for k in uniq), fh)
         new, listed = [], []
         for fd in uniq.values():
             hit = None
